@@ -31,7 +31,7 @@ def c02(tier, seed):
 def c03(tier, seed):
     n, m = q(tier, (4, 4), (5, 6))
     return [
-        {"type": "s2i", "kind": "evaluator", "tag": "nonan",
+        {"type": "s2i", "kind": "evaluator", "tag": "nonan", "judge": ["evaluator-panic", "evaluator-vs-direct"],
          "mc": {"module": "MC_Evaluator", "constants": {"N": n, "M": m, "WithNaN": False, "Guard": True}, "tag": "nonan"}},
         {"type": "i2s", "name": "explore (implementation fixpoint)", "spec": "Trace_Evaluator",
          "cmd": ["explore", "{seed}", q(tier, 6, 40), q(tier, 3, 4), "{trace}", "{work}/explore.json"], "report": "{work}/explore.json",
@@ -53,7 +53,8 @@ def c12(tier, seed):
         {"type": "i2s", "name": "drive evalv", "spec": "Trace_EvalV",
          "cmd": ["drive", "evalv", "{seed}", q(tier, 400, 4000), "{trace}", "nonan"]},
         library_s2i(tier, "vnext"), session_step(tier, "vnext"),
-    ]
+    ] + ([{"type": "apalache", "module": "AP_EvalV", "inv": "Inv", "length": 6,
+           "what": "<= 4 breakpoints and every fed argument arbitrary integers in any order, batches of <= 6 items: piece = Select(running maximum)"}] if tier == "thorough" else [])
 
 
 # ------------------------------------------------------------------------------------------------ C13
@@ -77,14 +78,14 @@ def c16(tier, seed):
         # the regression exhibit: the code before the fix (NaNGuard = FALSE) violates the contract in the model
         {"type": "mc", "module": "MC_Evaluator", "constants": {"N": 2, "M": 2, "WithNaN": True, "Guard": False},
          "tag": "legacy", "expect_violation": "Contract"},
-        {"type": "s2i", "kind": "evaluator", "tag": "nan",
+        {"type": "s2i", "kind": "evaluator", "tag": "nan", "judge": ["evaluator-panic", "evaluator-vs-direct-after-nan"],
          "mc": {"module": "MC_Evaluator", "constants": {"N": n, "M": m, "WithNaN": True, "Guard": True}, "tag": "nan"}},
-        {"type": "i2s", "name": "explore with NaN (implementation fixpoint)", "spec": "Trace_Evaluator",
+        {"type": "i2s", "name": "explore with NaN (implementation fixpoint)", "spec": "Trace_Evaluator", "cfg": "Trace_Evaluator_nan",
          "cmd": ["explore", "{seed}", q(tier, 4, 30), q(tier, 3, 4), "{trace}", "{work}/explore_nan.json", "nan"], "report": "{work}/explore_nan.json",
          "heap": "6g"},
-        {"type": "i2s", "name": "bounded histories with NaN (hook-free)", "spec": "Trace_Evaluator",
+        {"type": "i2s", "name": "bounded histories with NaN (hook-free)", "spec": "Trace_Evaluator", "cfg": "Trace_Evaluator_nan",
          "cmd": ["histories", q(tier, 3, 4), q(tier, 3, 3), "{trace}", "nan"], "heap": "6g"},
-        {"type": "i2s", "name": "random sessions with NaN", "spec": "Trace_Evaluator",
+        {"type": "i2s", "name": "random sessions with NaN", "spec": "Trace_Evaluator", "cfg": "Trace_Evaluator_nan",
          "cmd": ["drive", "evaluator", "{seed}", q(tier, 300, 3000), "{trace}"]},
         {"type": "i2s", "name": "evaluate_v with NaN items (panic-freedom only)", "spec": "Trace_EvalV", "cfg": "Trace_EvalV_panic",
          "cmd": ["drive", "evalv", "{seed}", q(tier, 300, 3000), "{trace}"]},
@@ -112,7 +113,8 @@ CALIB = {"type": "i2s", "name": "calibration of Fl/Val against the FPU", "spec":
 
 def c01(tier, seed):
     return [
-        {"type": "s2i", "kind": "poly", "mc": {"module": "MC_PolyAlgebra", "constants": {"MaxLen": 9, "MaxNZ": q(tier, 2, 3)}, "workers": 1, "timeout": 3400}},
+        {"type": "s2i", "kind": "poly", "judge": ["poly-exact", "log-at-1"],
+         "mc": {"module": "MC_PolyAlgebra", "constants": {"MaxLen": 9, "MaxNZ": q(tier, 2, 3)}, "workers": 1, "timeout": 3400}},
         CALIB,
         {"type": "i2s", "name": "drive eval", "spec": "Trace_Eval", "cmd": ["drive", "eval", "{seed}", q(tier, 6000, 30000), "{trace}"],
          "min_tally": [1000, 100, 300, 0]},
@@ -133,7 +135,8 @@ def c07(tier, seed):
 
 
 def c08(tier, seed):
-    return [{"type": "s2i", "kind": "poly", "mc": {"module": "MC_PolyAlgebra", "constants": {"MaxLen": 9, "MaxNZ": q(tier, 2, 3)}, "workers": 1, "timeout": 3400}},
+    return [{"type": "s2i", "kind": "poly", "judge": ["derivative-exact"],
+             "mc": {"module": "MC_PolyAlgebra", "constants": {"MaxLen": 9, "MaxNZ": q(tier, 2, 3)}, "workers": 1, "timeout": 3400}},
             CALIB,
             {"type": "i2s", "name": "drive deriv", "spec": "Trace_Ops", "cmd": ["drive", "deriv", "{seed}", q(tier, 400, 6000), "{trace}"],
              "min_tally": [0, 1000, 0, 0]},
@@ -158,7 +161,9 @@ def c15(tier, seed):
 
 
 def c09(tier, seed):
-    return [dict(MC_ALG), CALIB, TLAPS,
+    return [{"type": "s2i", "kind": "poly", "judge": ["log-indefinite-exact"],
+             "mc": {"module": "MC_PolyAlgebra", "constants": {"MaxLen": 9, "MaxNZ": q(tier, 2, 3)}, "workers": 1, "timeout": 3400}},
+            CALIB, TLAPS,
             {"type": "i2s", "name": "drive logint", "spec": "Trace_Log", "cmd": ["drive", "logint", "{seed}", q(tier, 120, 1500), "{trace}"],
              "min_tally": [500, 300, 0, 0]}] + \
            ([{"type": "i2s", "name": "drive logint shard %d" % k, "spec": "Trace_Log",
@@ -224,7 +229,8 @@ def c06(tier, seed):
         repo_tests("build"),
         {"type": "i2s", "name": "drive linear", "spec": "Trace_Build", "cmd": ["drive", "linear", "{seed}", q(tier, 2000, 20000), "{trace}"],
          "min_tally": [0, 0, 1500, 600]},
-    ]
+    ] + ([{"type": "apalache", "module": "AP_Linear", "inv": "Inv", "length": 6,
+           "what": "<= 6 knots with arbitrary integer abscissae in any order: one segment per pair, every breakpoint the running maximum, breakpoints non-decreasing"}] if tier == "thorough" else [])
 
 
 def c17(tier, seed):
